@@ -92,7 +92,15 @@ def _is_in(interp, args, kwargs):
     return SV(BOOL, mem_fn(sv.ty)(sv.t, ctx.term(x, sv.ty.args[0])))
 
 
+def _count_of(interp, args, kwargs):
+    """count_of(s, c): the uninterpreted str.count symbol (its two facts are assumed where the code calls str.count)"""
+    f = z3.Function("count_of", z3.StringSort(), z3.StringSort(), z3.IntSort())
+    from .vals import INT
+    return SV(INT, f(interp.ctx.strs.to_native(args[0]), interp.ctx.strs.to_native(args[1])))
+
+
 SPEC_BUILTINS = {
+    "count_of": _count_of,
     "is_in": _is_in,
     "fresh": _fresh, "split_off": _extern("split_off"),
     "all_in": _quant_in(True), "any_in": _quant_in(False),
